@@ -13,6 +13,15 @@ CHECKS = {
  "C03": ("interprocedural path-sensitive guard analysis (SSA) + path-shape grammar + call-graph reachability",
          "Decides structural necessary conditions, not the behaviour: every Join(BaseDir,U) on a caller-supplied name is dominated, along all call paths from the exported API, by the grammar match; every FS primitive in package store takes a path of a confined shape; Check/List count only valid names; no FS/exec primitive reachable from request handlers by call edges. Holds for all CFG paths and call sites at once, which the input-sampling tests cannot give.",
          "Not decided: kernel path resolution (symlinks inside the base dir), NAME_MAX, the syscall-level view."),
+ "C04": ("identity-flow (provenance) per link across frontends, request channel hop and dispatcher select case; guarded-output rules on enumerated SSA paths; call-graph funnel",
+         "Decides that every frontend hands exactly its decoded credentials, unchanged and in position, down to UserHash.Authenticate, and emits a success output only under the store's ok (∧ err==nil); plus the library invariant ok ⇒ err==nil and the single-funnel who-may-call rule. A regression that trims, truncates, swaps or case-folds a credential, or inverts/ignores the verdict in any of the five frontends, breaks one of these links.",
+         "Not decided: decoding inside net/http, encoding/json, the BER library, urfave/cli; transport limits; store-state dependence (C01)."),
+ "C06": ("path-sensitive guarded-call analysis with disjunctive gates on enumerated SSA paths of every registered handler; who-may-call",
+         "Decides the authorisation guard structure of the web API on all CFG paths of all 8 registered handlers: admin gate, three-alternative update gate with ambiguity refusal, issuance only after authentication, success responses only under gate ∧ err==nil, non-empty fields, and that store mutators have no caller outside gated handlers and CLI actions.",
+         "Not decided: sessions.Check itself (C07), JSON decoding ambiguities, closure under request sequences."),
+ "C07": ("freshness/CSPRNG provenance of key and nonce, guarded-return rules on enumerated SSA paths, writer/reader format agreement",
+         "Decides: key and per-Seal nonce are fresh make() buffers filled by crypto/rand.Read with checked error and used nowhere else; factory fields final; 200 only after AEAD.Open err==nil on the two URL-base64 halves; acceptance only under 3 parts ∧ exact flag ∧ ParseInt ok ∧ 0<=age<=lifetime; writer and reader formats agree. Every regression named in the property's why_tests_cant breaks one of these rules.",
+         "Not decided: AES-GCM unforgeability and the CSPRNG (trusted), nonce collision probability, wall-clock behaviour."),
  "C08": ("path-enumerating typestate/order analysis over SSA events of every store mutation function",
          "Decides the program's side of the crash-atomicity protocol on every CFG path: no write-capable open, content writes only to the .tmp temp file, first line -> aux copy -> fsync (checked) -> rename(temp, user file), temp cleanup on every exit. With the hand argument of DESIGN §4 this is a necessary condition whose breach makes some crash point observable.",
          "Not decided: the kernel honouring fsync/rename atomicity, concrete crash states, concurrent readers."),
